@@ -2,6 +2,7 @@
 package c14
 
 import (
+	"bytes"
 	"encoding/hex"
 	"fmt"
 	"sort"
@@ -236,6 +237,75 @@ func (e *env) aftermath(ctx sdk.Context, holder sdk.AccAddress) (sdkmath.Int, st
 	return after.Sub(before), strings.Join(log, ";") + " left:" + strings.Join(stuck, ",")
 }
 
+// stakingView lists the staking-store entries that carry a delegator address. With from/to set, every occurrence of
+// from (raw bytes in keys, bech32 text in values) is rewritten to to, so that the un-migrated source's records can be
+// compared with the migrated target's. Queue values are reduced to sorted entry lists (their order is not observable).
+func (e *env) stakingView(ctx sdk.Context, from, to sdk.AccAddress) map[string]string {
+	names := map[byte]string{0x31: "delegation", 0x32: "unbonding", 0x33: "unbonding-by-validator-index", 0x34: "redelegation", 0x35: "redelegation-by-source-validator-index",
+		0x36: "redelegation-by-destination-validator-index", 0x41: "unbonding-queue", 0x42: "redelegation-queue", 0x71: "delegation-by-validator-index"}
+	sub := func(b []byte) []byte {
+		if from == nil {
+			return b
+		}
+		b = bytes.ReplaceAll(b, from.Bytes(), to.Bytes())
+		return bytes.ReplaceAll(b, []byte(from.String()), []byte(to.String()))
+	}
+	out := map[string]string{}
+	st := scen.Store(e.w, ctx, stakingtypes.StoreKey)
+	it := st.Iterator(nil, nil)
+	defer it.Close()
+	cdc := e.w.App.AppCodec()
+	for ; it.Valid(); it.Next() {
+		k := it.Key()
+		n, ok := names[k[0]]
+		if !ok {
+			continue
+		}
+		key := fmt.Sprintf("%s %x", n, sub(k))
+		switch k[0] {
+		case 0x41:
+			var ps stakingtypes.DVPairs
+			cdc.MustUnmarshal(it.Value(), &ps)
+			var l []string
+			for _, p := range ps.Pairs {
+				l = append(l, string(sub([]byte(p.DelegatorAddress+"/"+p.ValidatorAddress))))
+			}
+			sort.Strings(l)
+			out[key] = strings.Join(l, ",")
+		case 0x42:
+			var ts stakingtypes.DVVTriplets
+			cdc.MustUnmarshal(it.Value(), &ts)
+			var l []string
+			for _, p := range ts.Triplets {
+				l = append(l, string(sub([]byte(p.DelegatorAddress+"/"+p.ValidatorSrcAddress+"/"+p.ValidatorDstAddress))))
+			}
+			sort.Strings(l)
+			out[key] = strings.Join(l, ",")
+		default:
+			out[key] = fmt.Sprintf("%x", sub(it.Value()))
+		}
+	}
+	return out
+}
+
+func diffStaking(want, got map[string]string) []string {
+	var out []string
+	for k, v := range want {
+		if g, ok := got[k]; !ok {
+			out = append(out, k+" missing after migration")
+		} else if g != v {
+			out = append(out, k+" differs after migration")
+		}
+	}
+	for k := range got {
+		if _, ok := want[k]; !ok {
+			out = append(out, k+" exists only after migration")
+		}
+	}
+	sort.Strings(out)
+	return out
+}
+
 func run(thorough bool) func(shard, shards int, deadline time.Time) *explore.Result {
 	return func(shard, shards int, deadline time.Time) *explore.Result {
 		start := time.Now()
@@ -334,6 +404,11 @@ func run(thorough bool) func(shard, shards int, deadline time.Time) *explore.Res
 						viol("C14/invariant-broken-after-migration/"+rt.FullRoute(), "sdk-invariants-hold", name+": "+msg, name)
 					}
 				}()
+			}
+			// staking records and indexes: what the target has now is what the un-migrated source has on the twin branch,
+			// key by key (delegations, unbondings, redelegations, their by-validator indexes and the maturation queues)
+			if d := diffStaking(e.stakingView(twin, src.Acc(), tgt.Acc()), e.stakingView(ctx, nil, nil)); len(d) > 0 {
+				viol("C14/staking-records-differ-from-unmigrated-twin/"+strings.SplitN(d[0], " ", 2)[0], "everything-moves", fmt.Sprintf("%s: %v", name, d), name)
 			}
 			// a second migration of either address is refused
 			if r2 := w.Deliver(ctx, migratetypes.NewMsgMigrateAccount(src.Acc(), w.A("t2").Hex(), sign(w.A("t2"), src.Acc(), w.A("t2").Hex().Bytes()))); r2.OK() {
